@@ -1,5 +1,5 @@
 ------------------------------- MODULE Forms -------------------------------
-(* Case generator for C37: initial form states and 1-2 fill steps over the field table of     *)
+(* Case generator for C37: initial form states and 1-3 fill steps over the field table of     *)
 (* FormsModel.tla.  The expected behaviour is not precomputed here: the harness records the    *)
 (* real pre/post states of every step and FormsTrace.tla judges them with FillAllowed.         *)
 EXTENDS FormsModel
@@ -9,6 +9,7 @@ EXTENDS FormsModel
 CONSTANTS Focus,     \* set of field indices that act as focus
           MaxSteps,  \* number of fill steps per case
           Kinds2,    \* step kinds available after the first step: subset of {"set", "subset", "refill", "same"}
+          MaxInit,   \* initial values: the first MaxInit entries of the focus field's repertoire
           FreeAll,   \* TRUE: initial lock flag and second step are chosen freely; FALSE: they rotate with the other choices
           Emit
 
@@ -36,18 +37,19 @@ MkOp(kind, fc, v, l, d) ==
 
 Init == /\ focus \in Focus
         /\ \E iv \in 1..(NV + 1), il \in BOOLEAN :
-             /\ iv <= Len(InitVals(Fields[focus]))
+             /\ iv <= Len(InitVals(Fields[focus])) /\ iv <= MaxInit
              /\ (~FreeAll => il = ((iv + focus) % 2 = 0))
              /\ init = InitState(focus, iv, il)
         /\ cur = init /\ ops = <<>>
 
 Step == /\ Len(ops) < MaxSteps
         /\ \E kind \in (IF ops = <<>> THEN {"set"} ELSE Kinds2), v \in 1..NV, l \in BOOLEAN :
-             /\ (~FreeAll /\ ops # <<>> => /\ kind = Pick(KindSeq, focus + ops[1].v + (IF ops[1].fields[focus].lock THEN 2 ELSE 0))
-                                           /\ (kind \in {"set", "subset"} => l = ((focus + ops[1].v) % 2 = 0)))
+             /\ ((~FreeAll /\ ops # <<>>) \/ Len(ops) >= 2 =>         \* rotated, not chosen (a third step always is)
+                   /\ kind = Pick(KindSeq, focus + ops[Len(ops)].v + Len(ops) + (IF ops[Len(ops)].fields[focus].lock THEN 2 ELSE 0))
+                   /\ (kind \in {"set", "subset"} => l = ((focus + ops[Len(ops)].v) % 2 = 0)))
              /\ v <= Len(SetVals(Fields[focus]))
              /\ (kind \in {"refill", "same"} => v = 1 /\ l)            \* no parameters
-             /\ (kind \in {"set", "subset"} /\ ops # <<>> => v = (ops[1].v % Len(SetVals(Fields[focus]))) + 1) \* a second set step takes the next value
+             /\ (kind \in {"set", "subset"} /\ ops # <<>> => v = (ops[Len(ops)].v % Len(SetVals(Fields[focus]))) + 1) \* a later set step takes the next value
              /\ LET op == MkOp(kind, focus, v, l, cur)
                 IN /\ ops' = Append(ops, [kind |-> kind, v |-> v, fields |-> op, allowed |-> FillAllowed(cur, op, Apply(cur, op))])
                    /\ cur' = Apply(cur, op)
